@@ -7,7 +7,7 @@ from cfg import CFG
 from expr import ExprBuilder, show
 import own
 
-W_DIRTY = re.compile(r'^evmap::WriteHandle::<K, V, M, S>::(update|insert|empty|clear|remove_entry|remove_value|purge|extend|retain|reserve|fit|fit_all|empty_random)$')
+W_DIRTY = re.compile(r'^evmap::WriteHandle::<K, V, M, S>::(update|insert|empty|clear|remove|remove_entry|remove_value|purge|extend|retain|reserve|fit|fit_all|empty_random)$')
 W_CLEAN = re.compile(r'^evmap::WriteHandle::<K, V, M, S>::(refresh|flush|publish)$')
 
 
